@@ -17,7 +17,7 @@ from pfhedge.nn import BSEuropeanBinaryOption
 from pfhedge.nn import BSEuropeanOption
 from pfhedge.nn import BSLookbackOption
 
-from ..gen import F64, pick, t
+from ..gen import F32, F64, pick, t
 
 RULE = (
     "points (s in [-0.6,0.6], t in [0.02,3] with t != 1 dominating, sigma in [0.08,1], K in {1 and random in [0.3,4]}, running max >= spot on "
@@ -45,9 +45,9 @@ ANCHORS = ['pfhedge.nn.functional:bs_european_delta',
            'pfhedge.autogreek:theta',
            'pfhedge._utils.parse:parse_spot',
            'pfhedge._utils.parse:parse_volatility']
-DECIDING = ["greek.broadcast_invariant", "greek.args_untouched", "greek.alias_invariant", "module.forward_is_delta", "greek.european", "greek.european_binary", "greek.american_binary", "greek.lookback", "autogreek.delta", "autogreek.gamma",
+DECIDING = ["greek.far_otm_zero", "greek.broadcast_invariant", "greek.args_untouched", "greek.alias_invariant", "module.forward_is_delta", "greek.european", "greek.european_binary", "greek.american_binary", "greek.lookback", "autogreek.delta", "autogreek.gamma",
             "autogreek.vega", "autogreek.theta", "autogreek.gamma_from_delta"]
-REQUIRED_BRANCHES = ["t!=1", "K!=1", "put", "american_binary.reached_spot_below", "via.module", "via.functional", "alias.spot_at_running_max", "autogreek.create_graph", "greek.broadcast", "tie.spot_at_running_max"]
+REQUIRED_BRANCHES = ["t!=1", "K!=1", "put", "american_binary.reached_spot_below", "via.module", "via.functional", "alias.spot_at_running_max", "autogreek.create_graph", "greek.broadcast", "tie.spot_at_running_max", "far_out_of_the_money"]
 
 N = 24
 
@@ -232,6 +232,36 @@ def drv_bs(ctx, k, rng):
                 est, unc = backward(S, hrel * S, order)
                 alt = backward(S * (K_h / K), hrel * S, order) if K_h != K else None
                 compare(ctx, mon, nm + "@tie", gt[nm], est, unc, sc_, base + (nm, "tie"), dict(pts, max_log_moneyness=mt), alt=alt, **kw_)
+    if kind in ("european", "european_binary") and call and rng.random() < 0.4:
+        # far out of the money (the spot, or its square, underflows towards zero while maturity and volatility are ordinary): the price is flat zero
+        # there (checked), so every Greek is zero - not NaN from an underflowing denominator
+        ctx.branch("far_out_of_the_money")
+        ctx.seen("greek.far_otm_zero")
+        big = [30.0, 60.0, 100.0] if rng.random() < 0.5 else [200.0, 373.0, 400.0]
+        sx = -t(np.array([pick(rng, big) for _ in range(N)]), F64)  # (call side: the spot goes to zero and stays representable)
+        for dt_ in (F64, F32):
+            sx_, tx_, vx_ = sx.to(dt_), tt.to(dt_), v.to(dt_)
+            if via == "module":
+                fns = {nm: (lambda nm=nm: getattr(mod, nm)(sx_, tx_, vx_)) for nm in ("price", "delta", "gamma", "vega", "theta")}
+            elif kind == "european":
+                fns = {"price": lambda: F.bs_european_price(sx_, tx_, vx_, strike=K, call=call), "delta": lambda: F.bs_european_delta(sx_, tx_, vx_, call=call),
+                       "gamma": lambda: F.bs_european_gamma(sx_, tx_, vx_, strike=K), "vega": lambda: F.bs_european_vega(sx_, tx_, vx_, strike=K),
+                       "theta": lambda: F.bs_european_theta(sx_, tx_, vx_, strike=K)}
+            else:
+                fns = {"price": lambda: F.bs_european_binary_price(sx_, tx_, vx_, call=call)}
+                fns.update({nm: (lambda nm=nm: getattr(F, "bs_european_binary_" + nm)(sx_, tx_, vx_, call=call, strike=K)) for nm in ("delta", "gamma", "vega", "theta")})
+            with torch.enable_grad():
+                vals = {nm: f_().detach() for nm, f_ in fns.items()}
+            if not bool((vals["price"].abs() <= 1e-300).all()):
+                continue
+            for nm in ("delta", "gamma", "vega", "theta"):
+                if not bool((vals[nm].abs() <= 1e-30).all()):  # (NaN fails the comparison)
+                    ctx.violation("greek.far_otm_zero", "far_otm." + kind + "." + nm, f"{kind} {nm} ({via}, {dt_}) far out of the money, where the price is flat zero: "
+                                  f"{vals[nm].reshape(-1)[:4].tolist()} at log_moneyness {sx_.reshape(-1)[:4].tolist()}", sig=(kind, via, nm, str(dt_)), log_moneyness=sx_[:4],
+                                  time_to_maturity=tx_[:4], volatility=vx_[:4], observed=vals[nm][:4])
+                    break
+            else:
+                ctx.ok("greek.far_otm_zero", sig=(kind, via, str(dt_)))
     # broadcasting: a volatility / maturity shared by all points (0-dim or one element) gives, point by point, what the full-shape call gives
     if rng.random() < 0.4:
         ctx.seen("greek.broadcast_invariant")
